@@ -11,21 +11,17 @@ PROPERTY_FILE = 'Properties/C14.v'
 THEOREMS = ['C14_rules_denotation', 'C14_rules_three_valued_refine', 'C14_rules_regenerated',
             'C14_rules_regenerated_eq', 'C14_rules_error_kind_corner', 'C14_interface_unchanged', 'C14_well_formed',
             'C14_function_preserved', 'C14_total_assignments', 'C14_truth_table_preserved',
-            'C14_evaluate_partial', 'C14_get_truth_table_partial', 'C14_bench_basis',
+            'C14_arities_accepted', 'C14_evaluate', 'C14_get_truth_table', 'C14_get_truth_table_returns', 'C14_bench_basis',
             'C14_helpers_in_blocks', 'C14_partial_assignments_differ', 'C14_arity_needed', 'C14_example']
-PARTIAL = {'C14_evaluate_partial': 'entry-point version of C14_truth_table_preserved: results of evaluate on every Boolean '
-                                    'vector are equal whenever both calls return; that the call on the converted circuit '
-                                    'returns whenever the call on the original does (completeness of the evaluators, the other '
-                                    'half of C01) is not proved',
-           'C14_get_truth_table_partial': 'get_truth_table c and get_truth_table (into_bench c) are equal whenever both return; '
-                                           'equality of the two results as `res` values needs completeness of the evaluators '
-                                           '(C01), not proved here. The statement over the relational semantics Eval '
-                                           '(C14_function_preserved, C14_truth_table_preserved) is complete'}
+PARTIAL = {}
 LEVEL_TEXT = ('proved for every circuit satisfying the C02 invariant (WF and INPUT gates without operands) whose operand '
               'counts are accepted by the operators, and for every list of fresh labels: whenever into_bench returns, '
               'inputs and outputs are unchanged, the result is well formed, every gate of the original circuit (hence '
               'every output, hence the truth table) has the same value in the relational semantics Eval under every '
-              'total assignment, only INPUT/NOT/AND/OR/NAND/NOR/XOR/NXOR/IFF gates remain, old gates survive, blocks '
+              'total assignment; at the entry points, as equalities of results: evaluate on every Boolean vector and '
+              'get_truth_table of the converted circuit return exactly what they return on the original, and both return '
+              '(the converted circuit is again well formed with accepted arities, so the evaluators are total on it: '
+              'completeness half of C01); only INPUT/NOT/AND/OR/NAND/NOR/XOR/NXOR/IFF gates remain, old gates survive, blocks '
               'keep name, order, inputs and outputs and only gain helper gates, and every new gate is the helper '
               '(operand, label prefix+l+fresh) of a rewritten gate l and lies in every block that has l among its '
               'gates; each of the ten rewrite rules is also proved locally on Den.den; code tie by exact '
@@ -45,12 +41,13 @@ LEVEL_NOTE = ('Coq kernel + vm_compute; hand-written model (Model/Connect.v into
               'can be more defined than the original (GT(U,1)=U but AND(U,NOT 1)=0; proved witness '
               'C14_partial_assignments_differ; on three-valued states the rules refine, '
               'C14_rules_three_valued_refine). arity_ok is needed too: a comparison gate with three operands has no value but '
-              'its conversion has one (proved witness C14_arity_needed). Statements are about Eval; the evaluators are tied to Eval by C01')
+              'its conversion has one (proved witness C14_arity_needed). Statements are about Eval and, through the soundness and completeness of the evaluators (C01), about evaluate / get_truth_table')
 TECHNIQUE = ('the ten rewrite rules are regenerated from converters.py by translator T6 and proved equal to the model the '
              'theorems are about (case analysis on the operand list, associativity of string append); Coq proof: shape lemma for one convert_gate (three kinds of steps), forward simulation of Eval per step by '
              'a congruence lemma (Eval_redefine: induction on derivations, no rank needed), induction over the snapshot '
              'loop with invariants indexed by the unvisited entries, converse direction from existence '
-             '(WF + arity_ok) and functionality of Eval; WF from C02')
+             '(WF + arity_ok) and functionality of Eval; WF from C02; entry points: arity_ok of the result from '
+             'existence of values (every helper is an operand of an old gate), then completeness of evaluate (C01) on both sides')
 TRUSTED = []
 ASSUMPTIONS = []
 ALLOW = ['into_bench'] * 3 + ['emplace', 'make_block', 'rename']
